@@ -2,6 +2,8 @@ import Just.Lemmas.LexerTotal
 import Just.Lemmas.LexerSafe
 import Just.Lemmas.LexerSafe2
 import Just.Props.C12
+import Just.Lemmas.Unindent
+import Just.Model.Body
 /-
 C11  No input makes just panic, abort, hang or report an internal error.
 
@@ -66,5 +68,130 @@ theorem lexer_no_internal_error (src : List Char) (e : Err) (h : tokenize src = 
 theorem main_loop_idle (src : List Char) (s : St) (b : Bool) (s' : St) (hi : Inv src s) (hc : s.cur = [])
     (h : stepMain s = .ok (b, s')) : s'.cur = [] :=
   KI.stepMain.keep s b s' hi h hc
+
+/-! ### byte-offset slicing never leaves the text
+
+Three places of the code slice strings by computed byte offsets (a panic in Rust when out of bounds
+or inside a multi-byte character): `Token::lexeme`, `unindent`, and the sigil strip of `run_linewise`. -/
+
+/-- `Token::lexeme` (`&src[offset..offset + length]`): for every token the lexer emits the slice is
+exactly a run of whole characters of the source — in bounds and on character boundaries. -/
+theorem lexeme_slice_valid (src : List Char) (toks : List Tok) (h : tokenize src = .ok toks) :
+    ∀ t ∈ toks, ∃ pre lex post, src = pre ++ lex ++ post ∧ t.offset = utf8Len pre ∧ t.length = utf8Len lex := by
+  intro t ht
+  obtain ⟨pre, lex, post, h1, h2, h3, _, _⟩ := C12.token_positions src toks h t ht
+  exact ⟨pre, lex, post, h1, h2, h3⟩
+
+/-- `unindent` (`&line[common_indentation.len()..]`): the common indentation is a prefix of every line
+that is sliced (every non-blank line), so the slice starts inside the line, after whole characters. -/
+theorem unindent_slice_valid (text : List Char) :
+    ∀ line ∈ Unindent.splitLines text [], Unindent.blank line = false →
+      Unindent.commonIndentation (Unindent.splitLines text []) <+: line := by
+  intro line hl hnb
+  obtain ⟨r, hr, hp⟩ := (Unindent.foldCommon_spec none (Unindent.splitLines text [])).2 line hl hnb
+  unfold Unindent.commonIndentation
+  rw [hr]
+  exact hp.trans (Unindent.indentation_prefix line)
+
+/-- the characters `unindent` cuts off are spaces and tabs only (one byte each) -/
+theorem unindent_cuts_blanks_only (text : List Char) :
+    ∀ c ∈ Unindent.commonIndentation (Unindent.splitLines text []), c = ' ' ∨ c = '\t' := by
+  intro c hc
+  cases hf : Unindent.foldCommon none (Unindent.splitLines text []) with
+  | none => simp [Unindent.commonIndentation, hf] at hc
+  | some r =>
+    -- `r` is below the indentation of the line that first set the accumulator: find one
+    have : ∃ l, r <+: Unindent.indentation l := by
+      -- if the fold returned `some`, some non-blank line exists (the accumulator starts as `none`)
+      have key : ∀ (ls : List (List Char)) (r : List Char), Unindent.foldCommon none ls = some r →
+          ∃ l ∈ ls, Unindent.blank l = false := by
+        intro ls
+        induction ls with
+        | nil => intro r h; simp [Unindent.foldCommon] at h
+        | cons x xs ih =>
+          intro r h
+          by_cases hb : Unindent.blank x = true
+          · simp only [Unindent.foldCommon, hb, if_true] at h
+            obtain ⟨l, hl, hnb⟩ := ih r h
+            exact ⟨l, by simp [hl], hnb⟩
+          · exact ⟨x, by simp, by simpa using hb⟩
+      obtain ⟨l, hl, hnb⟩ := key _ r hf
+      obtain ⟨r', hr', hp⟩ := (Unindent.foldCommon_spec none (Unindent.splitLines text [])).2 l hl hnb
+      rw [hf] at hr'
+      cases hr'
+      exact ⟨l, hp⟩
+    obtain ⟨l, hp⟩ := this
+    simp only [Unindent.commonIndentation, hf, Option.getD_some] at hc
+    have hmem : c ∈ Unindent.indentation l := hp.subset hc
+    have := Unindent.mem_takeWhile_pred _ _ _ hmem
+    simpa [Unindent.isIndentChar] using this
+
+/-- `run_linewise` (`&command[sigils..]`): the characters stripped are exactly the `@` / `-` the line
+starts with — one byte each, present in the evaluated text — for every first line of a group. -/
+theorem sigil_slice_valid (l : Body.Line) :
+    (l.isQuiet = true ∧ l.isInfallible = false → ∃ r, Body.evalLine l false = '@' :: r)
+    ∧ (l.isQuiet = false ∧ l.isInfallible = true → ∃ r, Body.evalLine l false = '-' :: r)
+    ∧ (l.isQuiet = true ∧ l.isInfallible = true → ∃ a b r, Body.evalLine l false = a :: b :: r
+        ∧ (a = '@' ∨ a = '-') ∧ (b = '@' ∨ b = '-')) := by
+  unfold Body.Line.isQuiet Body.Line.isInfallible Body.Line.first Body.evalLine
+  cases hf : l.frags with
+  | nil => simp
+  | cons f fs =>
+    cases f with
+    | interp v => simp
+    | text t =>
+      simp only [Bool.false_eq_true, if_false]
+      cases t with
+      | nil => simp [Body.startsWith]
+      | cons a t' =>
+        cases t' with
+        | nil =>
+          simp only [Body.startsWith, List.isPrefixOf, Body.unescape]
+          by_cases ha : a = '@'
+          · subst ha; simp
+          · by_cases hb : a = '-'
+            · subst hb; simp
+            · have ha' : ¬ '@' = a := fun h => ha h.symm
+              have hb' : ¬ '-' = a := fun h => hb h.symm
+              simp [ha', hb']
+        | cons b t'' =>
+          have hun : ∀ r, (a = '@' ∨ a = '-') → ∃ r', Body.unescape (a :: r) = a :: r' := by
+            intro r ha
+            rcases ha with rfl | rfl <;> exact ⟨_, by rw [Body.unescape]; intro r e; cases e⟩
+          have hun2 : (a = '@' ∨ a = '-') → (b = '@' ∨ b = '-') → ∃ r', Body.unescape (a :: b :: t'') = a :: b :: r' := by
+            intro ha hb
+            obtain ⟨r1, h1⟩ : ∃ r1, Body.unescape (b :: t'') = b :: r1 := by
+              rcases hb with rfl | rfl <;> exact ⟨_, by rw [Body.unescape]; intro r e; cases e⟩
+            rcases ha with rfl | rfl
+            · exact ⟨r1, by rw [Body.unescape, h1]; intro r e; cases e⟩
+            · exact ⟨r1, by rw [Body.unescape, h1]; intro r e; cases e⟩
+          simp only [Body.startsWith, List.isPrefixOf, Bool.and_true, beq_iff_eq, Bool.or_eq_true, Bool.and_eq_true]
+          refine ⟨?_, ?_, ?_⟩
+          · intro ⟨hq, hi⟩
+            have ha : a = '@' := by
+              rcases hq with h | h
+              · exact h.symm
+              · exfalso; simp_all
+            obtain ⟨r', hr'⟩ := hun (b :: t'') (Or.inl ha)
+            exact ⟨r' ++ Body.evalRest fs, by rw [hr', ha]; rfl⟩
+          · intro ⟨hq, hi⟩
+            have ha : a = '-' := by
+              rcases hi with h | h
+              · exact h.symm
+              · exfalso; simp_all
+            obtain ⟨r', hr'⟩ := hun (b :: t'') (Or.inr ha)
+            exact ⟨r' ++ Body.evalRest fs, by rw [hr', ha]; rfl⟩
+          · intro ⟨hq, hi⟩
+            have hab : (a = '@' ∧ b = '-') ∨ (a = '-' ∧ b = '@') := by
+              rcases hq with h | h <;> rcases hi with h' | h'
+              · exfalso; rw [← h] at h'; cases h'
+              · exact Or.inl ⟨h'.1.symm, h'.2.symm⟩
+              · exact Or.inr ⟨h.1.symm, h.2.symm⟩
+              · exfalso; rw [← h.1] at h'; cases h'.1
+            rcases hab with ⟨ha, hb⟩ | ⟨ha, hb⟩
+            · obtain ⟨r', hr'⟩ := hun2 (Or.inl ha) (Or.inr hb)
+              exact ⟨a, b, r' ++ Body.evalRest fs, by rw [hr']; rfl, Or.inl ha, Or.inr hb⟩
+            · obtain ⟨r', hr'⟩ := hun2 (Or.inr ha) (Or.inl hb)
+              exact ⟨a, b, r' ++ Body.evalRest fs, by rw [hr']; rfl, Or.inr ha, Or.inl hb⟩
 
 end Just.C11
